@@ -10,10 +10,7 @@ open AsynqModel.Core (Val)
 @[simp] theorem enterMode_fst (s : St) : (enterMode s).1 = s.mode := rfl
 @[simp] theorem enterMode_mode (s : St) : (enterMode s).2.mode = true := rfl
 @[simp] theorem enterMode_log (s : St) : (enterMode s).2.log = s.log := rfl
-@[simp] theorem refusal_isBase (c : Call) : (refusal c).isBase = false := by
-  unfold refusal; first | rfl | (split <;> rfl)
-theorem refusal_cases (c : Call) : refusal c = .syncRefused ∨ refusal c = .other := by
-  unfold refusal; first | (exact .inl rfl) | (split <;> simp)
+@[simp] theorem refusal_isBase (c : Call) : (refusal c).isBase = false := rfl
 @[simp] theorem syncStart_mode (c : Call) (s : St) : (syncStart c s).mode = s.mode := by
   unfold syncStart; cases c.sfn <;> rfl
 theorem syncStart_log (c : Call) (s : St) :
@@ -76,6 +73,7 @@ theorem ysR_mode : ∀ (y : Ys) (s : St), (ysR y s).2.mode = s.mode
   | .dict _ l, s => by simp [ysR]; exact yslR_mode l s
   | .sub _, s => by simp [ysR]
   | .pval y, s => by simp only [ysR]; exact ysR_mode y s
+  | .ofut b _, s => by cases b <;> simp [ysR]
 theorem yslR_mode : ∀ (l : YsL) (s : St), (yslR l s).2.mode = s.mode
   | .nil, s => by simp [yslR]
   | .cons y l, s => by
@@ -147,6 +145,7 @@ theorem resolveA_mode : ∀ (y : Ys) (s : St), (resolveA y s).2.mode = s.mode
     cases hm : s.mode
     · simp only [Bool.false_eq_true, if_false]; rw [resolveA_mode y s, hm]
     · simp [hm]
+  | .ofut b _, s => by cases b <;> simp [resolveA]
 theorem gatherA_mode : ∀ (l : YsL) (s : St), (gatherA l s).2.mode = s.mode
   | .nil, s => by simp [gatherA]
   | .cons y l, s => by
@@ -225,6 +224,7 @@ theorem ysR_noB : ∀ (y : Ys) (s : St), y.noRaiseB = true → (ysR y s).1.noB =
   | .dict _ l, s, hn => by simp only [Ys.noRaiseB] at hn; simp only [ysR]; exact wrap_noB _ (yslR_noB l s hn)
   | .sub _, _, _ => by simp [ysR, Out.noB, Err.isBase]
   | .pval y, s, hn => by simp only [Ys.noRaiseB] at hn; simp only [ysR]; exact ysR_noB y s hn
+  | .ofut b _, _, _ => by cases b <;> simp [ysR, Out.noB, Err.isBase]
 theorem yslR_noB : ∀ (l : YsL) (s : St), l.noRaiseB = true → (yslR l s).1.noB = true
   | .nil, _, _ => by simp [yslR, OutL.noB]
   | .cons y l, s, hn => by
@@ -303,6 +303,7 @@ theorem resolveA_noB : ∀ (y : Ys) (s : St), y.noRaiseB = true → (resolveA y 
     cases hm : s.mode
     · simp only [Bool.false_eq_true, if_false]; exact resolveA_noB y s hn
     · simp [Out.noB, Err.isBase]
+  | .ofut b _, _, _ => by cases b <;> simp [resolveA, Out.noB, Err.isBase]
 theorem gatherA_noB : ∀ (l : YsL) (s : St), l.noRaiseB = true → (gatherA l s).1.noB = true
   | .nil, _, _ => by simp [gatherA, OutL.noB]
   | .cons y l, s, hn => by
@@ -420,6 +421,7 @@ theorem resolveA_eq_ysR : ∀ (y : Ys) (s s' : St),
     simp [resolveA, ysR, gatherA_eq_yslR l s s' hm hm' hr hs (by simpa [SafeY, SafeL, Ys.excOnly, Ys.noRaiseB] using hx)]
   | .sub _, _, _, _, _, hr, _, _ => by simp [Ys.plainY] at hr
   | .pval _, _, _, _, _, hr, _, _ => by simp [Ys.plainY] at hr
+  | .ofut b _, _, _, _, _, _, _, _ => by cases b <;> simp [resolveA, ysR]
 theorem gatherA_eq_yslR : ∀ (l : YsL) (s s' : St),
     s.mode = true → s'.mode = false → l.plainY = true → l.noSync = true → SafeL l →
     (gatherA l s).1 = (yslR l s').1
@@ -436,7 +438,7 @@ end
 /-- every event a correct asynq-side run may log -/
 def evOkR (e : Ev) : Bool := dcOk e && modeSeen false e && syncAllowedOk e && noBad e
 /-- every event a correct asyncio-side run may log -/
-def evOkA (e : Ev) : Bool := dcOk e && modeSeen true e && syncFailedOk e && noBad e
+def evOkA (e : Ev) : Bool := dcOk e && modeSeen true e && syncRefusedOk e && noBad e
 
 /-- `s2` extends the log of `s` by events that all satisfy `ok`, among them the end of every task in `labs` -/
 def Ext (ok : Ev → Bool) (labs : List Nat) (s s2 : St) : Prop :=
@@ -632,6 +634,7 @@ theorem ysR_good : ∀ (y : Ys) (s : St), s.mode = false →
     simp only [ysR, Ys.labelsR]; exact ⟨wrap_fine _ hf, hx⟩
   | .sub _, s, _ => by simp only [ysR, Ys.labelsR]; exact ⟨rfl, Ext.refl _ s⟩
   | .pval y, s, hm => by simp only [ysR, Ys.labelsR]; exact ysR_good y s hm
+  | .ofut b _, s, _ => by cases b <;> (simp only [ysR, Ys.labelsR]; exact ⟨rfl, Ext.refl _ s⟩)
 theorem yslR_good : ∀ (l : YsL) (s : St), s.mode = false →
     (yslR l s).1.fine = true ∧ Ext evOkR (YsL.labelsR l) s (yslR l s).2
   | .nil, s, _ => by simp only [yslR, YsL.labelsR]; exact ⟨rfl, Ext.refl _ s⟩
@@ -695,7 +698,7 @@ theorem bodyA_good : ∀ (p : Prog) (gen : Bool) (t : Nat) (env : List Val) (cau
       | ok v =>
         simp only [Bool.not_true, Bool.false_eq_true, if_false]
         have hev : evOkA (.run t (i + 1) (s1.dc (Ys.labelsA y)) s1.mode (.ok v)) = true := by
-          simp [evOkA, dcOk, modeSeen, syncFailedOk, noBad, hd, hm1]
+          simp [evOkA, dcOk, modeSeen, syncRefusedOk, noBad, hd, hm1]
         obtain ⟨hf', hx'⟩ := bodyA_good k true t (env ++ [v]) caught (i + 1) (s1.emit (.run t (i + 1) (s1.dc (Ys.labelsA y)) s1.mode (.ok v)))
           (by simp [hm1])
         exact ⟨hf', ((hx.trans (Ext.emit s1 hev)).trans hx').weaken (by simp)⟩
@@ -704,7 +707,7 @@ theorem bodyA_good : ∀ (p : Prog) (gen : Bool) (t : Nat) (env : List Val) (cau
         split
         · exact ⟨rfl, (hx.trans (Ext.emitFin s1 t _ rfl)).weaken (by simp)⟩
         · have hev : evOkA (.run t (i + 1) (s1.dc (Ys.labelsA y)) s1.mode (.err e)) = true := by
-            simp [evOkA, dcOk, modeSeen, syncFailedOk, noBad, hd, hm1]
+            simp [evOkA, dcOk, modeSeen, syncRefusedOk, noBad, hd, hm1]
           obtain ⟨hf', hx'⟩ := bodyA_good h true t env (some e) (i + 1) (s1.emit (.run t (i + 1) (s1.dc (Ys.labelsA y)) s1.mode (.err e)))
             (by simp [hm1])
           exact ⟨hf', ((hx.trans (Ext.emit s1 hev)).trans hx').weaken (by simp)⟩
@@ -712,8 +715,7 @@ theorem bodyA_good : ∀ (p : Prog) (gen : Bool) (t : Nat) (env : List Val) (cau
   | .sync c child k h, gen, t, env, caught, i, s, hm => by
     unfold bodyA
     simp only [hm, if_true, refusal_isBase, Bool.false_eq_true, if_false]
-    have hev : evOkA (.syncX t (.err (refusal c))) = true := by
-      rcases refusal_cases c with hr | hr <;> rw [hr] <;> simp [evOkA, dcOk, modeSeen, syncFailedOk, noBad]
+    have hev : evOkA (.syncX t (.err (refusal c))) = true := rfl
     obtain ⟨hf', hx'⟩ := bodyA_good h gen t env (some (refusal c)) i (s.emit (.syncX t (.err (refusal c)))) (by simp [hm])
     exact ⟨hf', ((Ext.emit s hev).trans hx').weaken (by simp)⟩
 theorem resolveA_good : ∀ (y : Ys) (s : St), s.mode = true →
@@ -743,6 +745,7 @@ theorem resolveA_good : ∀ (y : Ys) (s : St), s.mode = true →
     simp only [resolveA, Ys.labelsA]; exact resolveA_good y s hm
   | .pval _, s, hm => by
     simp only [resolveA, Ys.labelsA, hm, if_true]; exact ⟨rfl, Ext.refl _ s⟩
+  | .ofut b _, s, _ => by cases b <;> (simp only [resolveA, Ys.labelsA]; exact ⟨rfl, Ext.refl _ s⟩)
 theorem gatherA_good : ∀ (l : YsL) (s : St), s.mode = true →
     (gatherA l s).1.noEsc = true ∧ Ext evOkA (YsL.labelsA l) s (gatherA l s).2
   | .nil, s, _ => by simp only [gatherA, YsL.labelsA]; exact ⟨rfl, Ext.refl _ s⟩
